@@ -84,6 +84,12 @@ def gen_cases(seed, n_cases):
     for ci in range(n_cases):
         n = int(rng.choice([1, 2, 5, 17, 60, 300])) if ci % 7 == 0 else int(rng.integers(1, 30))
         rows = random_motl_rows(rng, n)
+        for r in rows:
+            if rng.random() < 0.25:
+                # fresh picks after a rescaling: no shift at all, but a fractional stored position
+                for a in "xyz":
+                    r["shift_" + a] = 0.0
+                    r[a] = r[a] + float(rng.choice([0.5, 0.25, -0.37, 0.0, 0.75]))
         ops = []
         for _ in range(int(rng.integers(1, 7))):
             k = rng.choice(["update", "scale", "shift", "rotate", "flip1", "flipN", "flip0"])
